@@ -7,7 +7,8 @@
  * an earlier yield a second time) or restarts it from the top. */
 #include "common.h"
 
-enum { OP_CREATE_TO, OP_SELF_YIELD_TO, OP_THREAD_YIELD_TO, OP_REVIVE_TO };
+enum { OP_CREATE_TO, OP_SELF_YIELD_TO, OP_THREAD_YIELD_TO, OP_REVIVE_TO, OP_JOIN,
+       OP_RESUME_YIELD_TO, OP_SUSPEND };
 typedef struct {
     const char *name;
     int quick, op, pre_yield; /* pre_yield: A yields once before the op */
@@ -22,6 +23,13 @@ static const cfg_t cfgs[] = {
     { "A@shared(ES1,ES2): yield, thread_yield_to(never started B in an unserved pool)", 0,
       OP_THREAD_YIELD_TO, 1 },
     { "A@shared(ES1,ES2): self_yield_to(B) as first action", 0, OP_SELF_YIELD_TO, 0 },
+    /* the caller blocks / is pushed back while its partner runs elsewhere */
+    { "A@shared(ES1,ES2): yield, join(B@shared): exit of B hands off to A", 1, OP_JOIN,
+      1 },
+    { "A@shared(ES1,ES2): yield, resume_yield_to(blocked B@shared)", 1,
+      OP_RESUME_YIELD_TO, 1 },
+    { "A@shared(ES1,ES2): yield, self_suspend; B@shared resumes it as soon as BLOCKED",
+      0, OP_SUSPEND, 1 },
 };
 
 static const cfg_t *C;
@@ -44,6 +52,20 @@ static void note(char who)
 static void b_fn(void *arg)
 {
     (void)arg;
+    if (C->op == OP_RESUME_YIELD_TO) {
+        /* become the BLOCKED target of A's resume_yield_to */
+        OK(ABT_self_suspend());
+    } else if (C->op == OP_SUSPEND) {
+        /* resume A the moment its BLOCKED state is observable */
+        ABT_thread_state st;
+        for (;;) {
+            OK(ABT_thread_get_state(A, &st));
+            if (st == ABT_THREAD_STATE_BLOCKED)
+                break;
+            OK(ABT_thread_yield());
+        }
+        OK(ABT_thread_resume(A));
+    }
     b_runs++;
     note('b');
 }
@@ -88,6 +110,26 @@ static void a_fn(void *arg)
         case OP_REVIVE_TO:
             OK(ABT_thread_revive_to(S, b_fn, NULL, &B));
             break;
+        case OP_JOIN:
+            OK(ABT_thread_join(B));
+            break;
+        case OP_RESUME_YIELD_TO: {
+            ABT_thread_state st;
+            for (;;) {
+                OK(ABT_thread_get_state(B, &st));
+                if (st == ABT_THREAD_STATE_BLOCKED)
+                    break;
+                step = 2;
+                OK(ABT_thread_yield());
+                abtmc_check(step == mirror && step == 2, "stale_context",
+                            "A resumed from a stale saved context while polling");
+            }
+            OK(ABT_self_resume_yield_to(B));
+            break;
+        }
+        case OP_SUSPEND:
+            OK(ABT_self_suspend());
+            break;
     }
     a_in++;
     abtmc_check(a_in == 1, "two_slices_at_once", "A runs %d slices at once", a_in);
@@ -118,6 +160,9 @@ static void scenario(int cfg)
         /* ABT_thread_yield_to wants a READY target that IS in a pool: keep it
          * in a pool no stream serves, so nobody else can take it first */
         OK(ABT_thread_create(scratch, b_fn, NULL, ABT_THREAD_ATTR_NULL, &B));
+    } else if (C->op == OP_JOIN || C->op == OP_RESUME_YIELD_TO || C->op == OP_SUSPEND) {
+        /* B lives in the shared pool, too */
+        OK(ABT_thread_create(S, b_fn, NULL, ABT_THREAD_ATTR_NULL, &B));
     } else if (C->op == OP_REVIVE_TO) {
         /* a terminated named ULT (it ran on the primary stream) */
         OK(ABT_thread_create(h_main_pool(h_self_xstream()), b_fn, NULL,
@@ -130,9 +175,13 @@ static void scenario(int cfg)
     OK(ABT_sched_create_basic(ABT_SCHED_BASIC, 1, &S, ABT_SCHED_CONFIG_NULL, &s2));
 
     abtmc_window_begin();
+    int a_first = C->op == OP_JOIN || C->op == OP_RESUME_YIELD_TO || C->op == OP_SUSPEND;
+    if (a_first) /* B refers to A: both exist before a stream can run them */
+        OK(ABT_thread_create(S, a_fn, NULL, ABT_THREAD_ATTR_NULL, &A));
     OK(ABT_xstream_create(s1, &es1));
     OK(ABT_xstream_create(s2, &es2));
-    OK(ABT_thread_create(S, a_fn, NULL, ABT_THREAD_ATTR_NULL, &A));
+    if (!a_first)
+        OK(ABT_thread_create(S, a_fn, NULL, ABT_THREAD_ATTR_NULL, &A));
     OK(ABT_thread_join(A));
     /* B exists once A has passed the directed switch */
     OK(ABT_thread_join(B));
